@@ -657,8 +657,8 @@ def mutation_strategy(seeds):
 
 
 def shards(tier):
-    n, k = (640, 32) if tier == 'quick' else (24000, 96)
-    m, km = (96, 4) if tier == 'quick' else (4000, 16)
+    n, k = (640, 32) if tier == 'quick' else (6000, 96)
+    m, km = (96, 4) if tier == 'quick' else (1500, 16)
     return [{'n': c, 'i': i} for i, c in enumerate(harness.split(n, k))] + \
            [{'kind': 'corpus', 'n': c, 'i': i} for i, c in enumerate(harness.split(m, km))]
 
